@@ -13,11 +13,11 @@ integers of the case specification, never read back from the repo's helpers).  T
   one RUNNING task that was released/scheduled/placed/started/stepped through the real methods,
   plus 4 distractor tasks VIRTUAL / released-in-the-future / CANCELLED / SCHEDULED that must not be
   answered) x multisets of offered tasks (deadline in {9 past, 14, 16, 30}, release in {2, 6},
-  5 ordered strategy lists over {GPU:1}, {GPU:2}, {CPU:1,GPU:1}, {CPU:1}, with ties) x scheduler
+  6 ordered strategy lists over {GPU:1}, {GPU:2}, {CPU:1,GPU:1}, {CPU:1}, with ties in runtime and nested demands) x scheduler
   options (preemptive on/off for EDF and LSF, enforce_deadlines on/off for EDF and FIFO), tasks in
-  1 or 2 task graphs.  quick: all multisets of <=2 tasks over the 40 task types + all multisets of
+  1 or 2 task graphs.  quick: all multisets of <=2 tasks over the 48 task types + all multisets of
   3 tasks over 15 (C12: 20) (deadline, strategy-list) types + 1500 seeded 4-task multisets;
-  thorough: <=3 over 40 types + 4 over 20 types.  (`retract_schedules` is not a parameter of these policies.)
+  thorough: <=3 over 48 types + 4 over 20 types.  (`retract_schedules` is not a parameter of these policies.)
 * Clockwork histories (C10, C12, C15): the real ClockworkScheduler driven over 3 successive
   invocations (t=0,3,6); requests (model A|B, arrival invocation, deadline offset in {2,3,5,9})
   arrive, every returned placement set is judged, then applied the way simulator.py applies it
@@ -209,6 +209,9 @@ G_STRATSETS = {
     "C": [({"CPU": 1, "GPU": 1}, 5)],
     "D": [({"GPU": 2}, 6), ({"CPU": 1}, 8)],
     "E": [({"CPU": 1}, 8), ({"GPU": 1}, 4)],
+    # same runtime as A and a demand that contains A's: a distinct strategy object that is "equal by value" to A's in
+    # every comparison that looks at runtime / batch size / a sub-vector of the resources (seed C13-3)
+    "F": [({"CPU": 1, "GPU": 1}, 4)],
 }
 # cluster: pools -> workers -> capacity ; occupancy options: None or a RUNNING task
 G_CLUSTERS = {
@@ -925,7 +928,7 @@ REL_PATTERNS = [(6, 2, 6, 2), (2, 6, 2, 6), (2, 2, 6, 6), (6, 6, 2, 2)]
 
 def greedy_specs(tier, seed, pid):
     """deterministic list of greedy world specs"""
-    full = [(d, r, s) for d in G_DEADLINES for r in G_RELEASES for s in sorted(G_STRATSETS)]  # 40 task types
+    full = [(d, r, s) for d in G_DEADLINES for r in G_RELEASES for s in sorted(G_STRATSETS)]  # 48 task types
     # (deadline, strategy list) types for the largest multisets; the past deadline 9 only matters for the
     # admission clause, so the quick tier keeps it there for C12 only (it is always present for <=2 tasks)
     red_deadlines = G_DEADLINES if (tier == "thorough" or pid == "C12") else [d for d in G_DEADLINES if d >= NOW]
@@ -969,7 +972,7 @@ def greedy_specs(tier, seed, pid):
                 specs.append({"cluster": K, "occ": oi, "tasks": list(ms), "graphs": 1, "distract": False})
     for i, s in enumerate(specs):
         s["seed"] = (seed * 1000003 + i) & 0x7FFFFFFF
-    desc = "all %d multisets of <=%d offered tasks over 40 task types (4 deadlines incl. past/tight/loose x 2 releases x 5 strategy lists) + all %d multisets of %d tasks over %d (deadline, strategy list) types with the releases cycling through 4 fixed patterns%s; 2-graph variant (%d multisets of 1-2 tasks) on %s" % (
+    desc = "all %d multisets of <=%d offered tasks over 48 task types (4 deadlines incl. past/tight/loose x 2 releases x 6 strategy lists) + all %d multisets of %d tasks over %d (deadline, strategy list) types with the releases cycling through 4 fixed patterns%s; 2-graph variant (%d multisets of 1-2 tasks) on %s" % (
         n1, n_full, n2, n_full + 1, len(red), "" if not sampled else " + %d seeded 4-task multisets" % len(sampled), len(two_graph), "every cluster state" if tier == "thorough" else "the occupied cluster states")
     return specs, desc
 
